@@ -11,6 +11,11 @@ P = {
          'integer keys stay in range; _process_xT_arrays/_process_TG_arrays give point i of a batch the numbers of point i alone (symbolic length) and leave caller arrays unchanged; _interfacialCompositionFromEq leaves gExtra unchanged and hands the backend gExtra+offset; '
          'the diffusivity cache is read and written under the QUERIED phase only and cleared by removeCache/clearCache; local_equilibrium overwrites the state variables of every re-used composition set with the current conditions.',
          'value equality of pycalphad results started from different cached composition sets is an ASSUMED contract on the external solver (undecidable here, listed as undecided in the evidence); builtin hash injective on admissible keys assumed'),
+ 'C10': ('Partial: kawin\'s own algebra on top of database values, from the real Mobility.py / FreeEnergyHessian.py / Thermodynamics.py: tracer diffusivity = R*T*correction*mobility per element (R in 8.31..8.32, one factor for all elements) hence positive for positive mobilities; '
+         'substitutional u-fractions sum to one; mobility matrix entries (delta_ab - U_a) U_b M_b Usum, substitutional column sums zero (volume-fixed frame), interstitial rows diagonal with the vacancy fraction; reference elimination Dn = D - D_ref for every reference; '
+         'binary interdiffusivity = Darken combination of the tracer diffusivities times x_A dmu_A/dx_A /(R T) GIVEN Gibbs-Duhem for the partial derivatives; dMudX = documented differences of partialdMudX (shared Hessian inverse); inverseMobility * Dn = curvature; '
+         'public getters use the equilibrium, composition set, vacancy flag and mobility functions of the QUERIED phase and return values at the position of the named element.',
+         'dmu/dx = finite-difference derivative of equilibrium potentials, symmetry/positive definiteness and eigenvalue positivity are statements about pycalphad and the databases: undecidable by contracts here, listed as undecided in the evidence; systems of 2-3 elements with 0-1 interstitial'),
  'C11': ('Element order: for every ordering of 2 and 3 solutes (and a reference element that is not alphabetically first) the real _interdiffusivitySingle / _tracerDiffusivitySingle / _computeSingleMobility return at the user\'s position the backend value of the element NAMED there '
          '(matrices permuted on both axes), and _getConditions maps X(name) to the user\'s number for that name; phase order: each of the five step-size constraints returns the same dt under every permutation of the phases and their per-phase data.',
          'backend (pycalphad) equivariance assumed; P = 2 quick, P = 3 thorough'),
